@@ -1,2 +1,236 @@
-(* Proofs/AlignProofsC.v *)
+(* Proofs/AlignProofsC.v — finite checks: the shipped tables (gen/Tables.v,
+   gen/Lev.v, regenerated from the implementation on every run) and the two
+   witnesses of known finding D7; boolean deciders for the domain predicates. *)
 From Bio Require Import Base.
+From Bio.gen Require Import Tables Lev.
+From Bio.Model Require Import Align.
+From Bio.Spec Require Import AlignSpec.
+From Bio.Proofs Require Import AlignProofs AlignProofsB.
+Open Scope N_scope.
+
+(* ---- deciders for covers / nonpos_gaps ---------------------------------- *)
+Definition is_ok (o : outcome Z) : bool := match o with Ok _ => true | _ => false end.
+
+Definition coversb (g : scorer) (a b : bytes) : bool :=
+  forallb (fun x => forallb (fun y => is_ok (g x y)) (Gap :: b)) (Gap :: a).
+
+Lemma coversb_sound : forall g a b, coversb g a b = true -> covers_g g a b.
+Proof.
+  unfold coversb, covers_g. intros g a b H x y Hx Hy.
+  rewrite forallb_forall in H. specialize (H x Hx).
+  rewrite forallb_forall in H. specialize (H y Hy).
+  destruct (g x y); try discriminate. eauto.
+Qed.
+
+Definition nonpos_o (o : outcome Z) : bool := match o with Ok z => (z <=? 0)%Z | _ => true end.
+
+Definition nonposb (g : scorer) (a b : bytes) : bool :=
+  forallb (fun x => nonpos_o (g x Gap)) (Gap :: a) && forallb (fun y => nonpos_o (g Gap y)) (Gap :: b).
+
+Lemma nonposb_sound : forall g a b, nonposb g a b = true -> nonpos_gaps_g g a b.
+Proof.
+  unfold nonposb, nonpos_gaps_g. intros g a b H.
+  apply andb_true_iff in H. destruct H as [H1 H2].
+  rewrite forallb_forall in H1, H2. split.
+  - intros x z Hx Hg. specialize (H1 x Hx). rewrite Hg in H1. cbn in H1. lia.
+  - intros y z Hy Hg. specialize (H2 y Hy). rewrite Hg in H2. cbn in H2. lia.
+Qed.
+
+(* ---- association lists ---------------------------------------------------- *)
+Lemma get_in : forall m x y s, get m x y = Ok s -> In ((x, y), s) m.
+Proof.
+  induction m as [|[[x0 y0] s0] r IH]; intros x y s H; cbn in H; [discriminate|].
+  destruct ((x0 =? x) && (y0 =? y)) eqn:E.
+  - apply andb_true_iff in E. destruct E as [E1 E2].
+    apply N.eqb_eq in E1, E2. subst. inversion H. subst. left. reflexivity.
+  - right. apply IH. exact H.
+Qed.
+
+Lemma get_ok_or_panic : forall m x y, (exists s, get m x y = Ok s) \/ get m x y = Panic.
+Proof.
+  induction m as [|[[x0 y0] s0] r IH]; intros x y; cbn; [right; reflexivity|].
+  destruct ((x0 =? x) && (y0 =? y)); [left; eauto|apply IH].
+Qed.
+
+(* every entry has its mirror image with the same score *)
+Definition mirrored (m : matrix) : bool :=
+  forallb (fun e => match e with
+                    | ((x, y), s) => match get m y x with Ok s' => (s =? s')%Z | _ => false end
+                    end) m.
+
+Lemma mirrored_symmetric : forall m, mirrored m = true -> symmetric_g (get m).
+Proof.
+  unfold mirrored, symmetric_g. intros m H x y. rewrite forallb_forall in H.
+  assert (K : forall x y s, get m x y = Ok s -> get m y x = Ok s).
+  { intros x1 y1 s Hg. apply get_in in Hg. specialize (H _ Hg). cbn in H.
+    destruct (get m y1 x1); try discriminate. apply Z.eqb_eq in H. subst. reflexivity. }
+  destruct (get_ok_or_panic m x y) as [[s Hs]|Hp].
+  - rewrite Hs. symmetry. apply K. exact Hs.
+  - destruct (get_ok_or_panic m y x) as [[s Hs]|Hq].
+    + apply K in Hs. rewrite Hs in Hp. discriminate.
+    + rewrite Hp, Hq. reflexivity.
+Qed.
+
+(* ---- the six shipped PAM/BLOSUM tables ------------------------------------- *)
+(* "ABCDEFGHIKLMNPQRSTVWXYZ" and the gap byte *)
+Definition protein_letters : bytes :=
+  [65;66;67;68;69;70;71;72;73;75;76;77;78;80;81;82;83;84;86;87;88;89;90].
+Definition protein_alphabet : bytes := protein_letters ++ [Gap].
+
+Definition shipped_tabs : list matrix :=
+  [pam120_tab; pam160_tab; pam250_tab; blosum45_tab; blosum62_tab; blosum80_tab].
+
+Definition totalb (m : matrix) : bool :=
+  forallb (fun x => forallb (fun y => is_ok (get m x y)) protein_alphabet) protein_alphabet.
+
+Lemma shipped_total_b : forallb totalb shipped_tabs = true.
+Proof. vm_compute. reflexivity. Qed.
+
+Lemma shipped_total : forall m x y, In m shipped_tabs ->
+  In x protein_alphabet -> In y protein_alphabet -> exists z, get m x y = Ok z.
+Proof.
+  intros m x y Hm Hx Hy. pose proof shipped_total_b as H.
+  rewrite forallb_forall in H. specialize (H m Hm). unfold totalb in H.
+  rewrite forallb_forall in H. specialize (H x Hx).
+  rewrite forallb_forall in H. specialize (H y Hy).
+  destruct (get m x y); try discriminate. eauto.
+Qed.
+
+Lemma shipped_mirrored_b : forallb mirrored shipped_tabs = true.
+Proof. vm_compute. reflexivity. Qed.
+
+Lemma shipped_symmetric : forall m, In m shipped_tabs -> symmetric_g (get m).
+Proof.
+  intros m Hm. apply mirrored_symmetric. pose proof shipped_mirrored_b as H.
+  rewrite forallb_forall in H. apply H. exact Hm.
+Qed.
+
+Lemma shipped_gap_open_zero : forall m, In m shipped_tabs -> gap_open m = Ok 0%Z.
+Proof.
+  intros m Hm. unfold gap_open.
+  assert (H : forallb (fun m => match get m Gap Gap with Ok 0%Z => true | _ => false end) shipped_tabs = true)
+    by (vm_compute; reflexivity).
+  rewrite forallb_forall in H. specialize (H m Hm).
+  destruct (get m Gap Gap) as [z| |]; try discriminate. destruct z; try discriminate. reflexivity.
+Qed.
+
+(* 576 entries each, none flagged as non-integral by the generator *)
+Lemma shipped_sizes : map (@length _) shipped_tabs = repeat (N.to_nat 576) 6
+  /\ [pam120_nonintegral; pam160_nonintegral; pam250_nonintegral;
+      blosum45_nonintegral; blosum62_nonintegral; blosum80_nonintegral] = repeat false 6.
+Proof. vm_compute. split; reflexivity. Qed.
+
+(* gap scores of the shipped matrices are negative: Local's domain *)
+Lemma shipped_nonpos : forall m a b, In m shipped_tabs ->
+  incl a protein_letters -> incl b protein_letters -> nonpos_gaps m a b.
+Proof.
+  intros m a b Hm Ha Hb.
+  assert (H : forallb (fun m => nonposb (get m) protein_letters protein_letters) shipped_tabs = true)
+    by (vm_compute; reflexivity).
+  rewrite forallb_forall in H. specialize (H m Hm). apply nonposb_sound in H.
+  destruct H as [H1 H2]. split.
+  - intros x z [Hx|Hx]; [apply H1; left; exact Hx|apply H1; right; apply Ha; exact Hx].
+  - intros y z [Hy|Hy]; [apply H2; left; exact Hy|apply H2; right; apply Hb; exact Hy].
+Qed.
+
+Lemma shipped_covers : forall m a b, In m shipped_tabs ->
+  incl a protein_letters -> incl b protein_letters -> covers m a b.
+Proof.
+  intros m a b Hm Ha Hb x y Hx Hy. apply shipped_total; [exact Hm| |].
+  - unfold protein_alphabet. apply in_or_app. destruct Hx as [<-|Hx]; [right; left; reflexivity|left; auto].
+  - unfold protein_alphabet. apply in_or_app. destruct Hy as [<-|Hy]; [right; left; reflexivity|left; auto].
+Qed.
+
+(* ---- Levenshtein: all 65,536 entries ---------------------------------------- *)
+Definition bytes256 : list N := map N.of_nat (seq 0 (N.to_nat 256)).
+
+Lemma in_bytes256 : forall a, a < 256 -> In a bytes256.
+Proof.
+  intros a H. unfold bytes256. rewrite <- (N2Nat.id a). apply in_map.
+  apply in_seq. lia.
+Qed.
+
+Definition same_o (x y : outcome Z) : bool :=
+  match x, y with Ok u, Ok v => (u =? v)%Z | _, _ => false end.
+
+Lemma lev_rule_b :
+  forallb (fun a => forallb (fun b => same_o (lev_get a b) (lev_rule a b)) bytes256) bytes256 = true.
+Proof. vm_compute. reflexivity. Qed.
+
+Lemma lev_rule_all : forall a b, a < 256 -> b < 256 -> lev_get a b = lev_rule a b.
+Proof.
+  intros a b Ha Hb. pose proof lev_rule_b as H.
+  rewrite forallb_forall in H. specialize (H a (in_bytes256 a Ha)).
+  rewrite forallb_forall in H. specialize (H b (in_bytes256 b Hb)).
+  unfold same_o in H. destruct (lev_get a b); try discriminate.
+  unfold lev_rule in *. apply Z.eqb_eq in H. subst. reflexivity.
+Qed.
+
+Lemma lev_size_ok : lev_size = 65536%Z /\ length lev_tab = N.to_nat 256
+  /\ forallb (fun r => Nat.eqb (length r) (N.to_nat 256)) lev_tab = true.
+Proof. vm_compute. repeat split; reflexivity. Qed.
+
+(* ---- known finding D7: the two witnesses ------------------------------------ *)
+Definition simple_matrix (mt ms gp op : Z) : matrix :=
+  [ ((97, 97), mt); ((97, 98), ms); ((97, 255), gp);
+    ((98, 97), ms); ((98, 98), mt); ((98, 255), gp);
+    ((255, 97), gp); ((255, 98), gp); ((255, 255), op) ].
+
+(* Global a="a" b="aaab", match 1 mismatch -1 gap -1 open -2 *)
+Definition d7_global_m : matrix := simple_matrix 1 (-1) (-1) (-2).
+Definition d7_global_a : bytes := [97].
+Definition d7_global_b : bytes := [97; 97; 97; 98].
+Definition d7_global_al : list step := [SMatch; SIns; SIns; SIns].
+
+(* Local a="ababba" b="aaaa", match 2 mismatch 0 gap 0 open -1 *)
+Definition d7_local_m : matrix := simple_matrix 2 0 0 (-1).
+Definition d7_local_a : bytes := [97; 98; 97; 98; 98; 97].
+Definition d7_local_b : bytes := [97; 97; 97; 97].
+(* a[0..6) against b[0..4): a-a b-a a-a (bb deleted) a-a = 2+0+2-1+2 = 5 *)
+Definition d7_local_al : list step := [SMatch; SMatch; SMatch; SDel; SDel; SMatch].
+
+Lemma d7_global_facts :
+  coversb (get d7_global_m) d7_global_a d7_global_b = true /\
+  nonposb (get d7_global_m) d7_global_a d7_global_b = true /\
+  gap_open d7_global_m = Ok (-2)%Z /\
+  consumes d7_global_al = (length d7_global_a, length d7_global_b) /\
+  score d7_global_m d7_global_a d7_global_b d7_global_al = Ok (-4)%Z /\
+  global d7_global_m d7_global_a d7_global_b = Ok ([SIns; SIns; SIns; SMatch], (-6)%Z).
+Proof. vm_compute. repeat split; reflexivity. Qed.
+
+Lemma d7_local_facts :
+  coversb (get d7_local_m) d7_local_a d7_local_b = true /\
+  nonposb (get d7_local_m) d7_local_a d7_local_b = true /\
+  gap_open d7_local_m = Ok (-1)%Z /\
+  consumes d7_local_al = (length d7_local_a, length d7_local_b) /\
+  score d7_local_m d7_local_a d7_local_b d7_local_al = Ok 5%Z /\
+  local d7_local_m d7_local_a d7_local_b = Ok ([SMatch; SMatch; SMatch], 0%Z, 0%Z, 4%Z).
+Proof. vm_compute. repeat split; reflexivity. Qed.
+
+(* ======================================================================== *)
+(* The theorems at matrix level (the statements of Properties/C08-C10).         *)
+Open Scope Z_scope.
+
+Lemma global_valid : forall m a b, covers m a b ->
+  exists al s, global m a b = Ok (al, s)
+    /\ consumes al = (length a, length b)
+    /\ score m a b al = Ok s.
+Proof. intros m a b. apply (global_valid_g (get m)). Qed.
+
+Lemma local_valid : forall m a b, covers m a b -> nonpos_gaps m a b ->
+  exists r, local m a b = Ok r /\ local_answer_valid (get m) a b r.
+Proof. intros m a b. apply (local_valid_g (get m)). Qed.
+
+Lemma no_panic : forall m a b, covers m a b ->
+  (exists r, global m a b = Ok r) /\ (exists r, local m a b = Ok r).
+Proof. intros m a b. apply (no_panic_g (get m)). Qed.
+
+Lemma global_optimal0 : forall m a b, covers m a b -> gap_open m = Ok 0 ->
+  exists gs, global_score m a b = Ok gs /\
+    forall al s, consumes al = (length a, length b) -> score m a b al = Ok s -> s <= gs.
+Proof. intros m a b. apply (global_optimal0_g (get m)). Qed.
+
+Lemma local_optimal0 : forall m a b, covers m a b -> gap_open m = Ok 0 ->
+  exists ls, local_score m a b = Ok ls /\
+    forall i j al s, score m (skipn i a) (skipn j b) al = Ok s -> s <= ls.
+Proof. intros m a b. apply (local_optimal0_g (get m)). Qed.
